@@ -213,6 +213,6 @@ class Check:
         ev = dict(property_id=self.pid, tier=self.tier, seed=int(self.seed), level=level, coverage=cov,
                   assumptions=self.assumptions, wall_s=round(time.time() - self.t0, 2), violations=nviol,
                   notes=self.notes)
-        d = core.VERIF / "evidence"
-        d.mkdir(exist_ok=True)
+        d = core.evidence_dir()
+        d.mkdir(parents=True, exist_ok=True)
         (d / (self.pid + ".json")).write_text(json.dumps(ev, indent=1, default=str))
